@@ -10,7 +10,12 @@ use std::path::Path;
 pub fn run(ctx: &Ctx, def: PropDef) -> i32 {
     let t0 = std::time::Instant::now();
     let id = def.id;
-    let results: Vec<SubResult> = engine::run_all(ctx, id, def.subs);
+    // VERIF_ONLY=<prefix>: debugging aid, run only the sub-checks whose name starts with it
+    let subs = match std::env::var("VERIF_ONLY") {
+        Ok(p) if !p.is_empty() => def.subs.into_iter().filter(|s| s.name().starts_with(&p)).collect(),
+        _ => def.subs,
+    };
+    let results: Vec<SubResult> = engine::run_all(ctx, id, subs);
     let wall = t0.elapsed().as_secs_f64();
 
     // known findings: print one line per listed finding of this property
